@@ -153,7 +153,6 @@ func cmdProv(args []string) error {
 
 func init() { commands["prov"] = cmdProv }
 
-
 // listsSorted returns a copy of the facts in which every top-level list argument has its elements sorted.
 func listsSorted(fs []mgjson.Atom) []mgjson.Atom {
 	out := make([]mgjson.Atom, len(fs))
